@@ -5,7 +5,7 @@ text = open('/tmp/kt/mir/rcgen.mir').read()
 fns = mir.parse(text)
 print(len(fns), 'functions parsed')
 only = sys.argv[1:]
-for ob_fn in dn.ALL + dn.NAMES + dn.ISSUING + dn.SIGNING:
+for ob_fn in dn.ALL + dn.NAMES + dn.ISSUING + dn.SIGNING + dn.TBS:
     if only and ob_fn.__name__ not in only: continue
     t0 = time.time()
     try:
